@@ -15,6 +15,7 @@ package main
 
 import (
 	"bytes"
+	"math/big"
 	"fmt"
 	"go/ast"
 	"go/constant"
@@ -38,8 +39,18 @@ type item struct {
 	// starts with StopBefore and return the variable Result
 	StopBefore string
 	Result     string
-	// Go expressions (printed text) replaced by a fresh parameter "name:Type"
+	// Go expressions (printed text) replaced by a fresh parameter "name:Type"; a key "text#n" stands for the n-th
+	// occurrence of that text in the function body, in source order (two calls that read different states)
 	Opaque map[string]string
+	// statements (by the prefix of their printed text) left out of the translation: counters, hooks, debug
+	// printing, and writes to state that only the Opaque expressions read. Listed explicitly because each one is
+	// a trusted claim that the statement does not influence the translated result.
+	Skip []string
+	// statement-range slice: start at the first top-level statement whose printed text starts with StartAt; locals
+	// declared before it become parameters. State maps the printed text of an lvalue (e.g. "pos.flags") to a
+	// variable "name:Type" that is a parameter, may be assigned, and is what Result names.
+	StartAt string
+	State   map[string]string
 	// parameters dropped from the signature (must be unused in the translated part)
 	Drop []string
 	// named expression: instead of the body, translate the right-hand side of the first assignment/definition of
@@ -58,7 +69,14 @@ var whitelist = []item{
 	{Func: "charToPiece"},
 	{Func: "calcEndtime", Lean: "calcEndtime_millis", StopBefore: "endtime :=", Result: "millisForMove",
 		Opaque: map[string]string{"posGen.getTopPos().flags&FlagWhiteTurn == 0": "isBlackTurn:Bool"}, Drop: []string{"startTime"}},
-	{Func: "nps", Opaque: map[string]string{"timeElapsed.Microseconds()": "micros:Int"}, Drop: []string{"timeElapsed"}},
+	{Func: "LazyEvaluate", Lean: "LazyEvaluate_decision", Drop: []string{"pos", "debug"},
+		Opaque: map[string]string{"isCheckMate(pos)": "mate:Bool", "pieceSquareScore(pos, gamePhaseFactor, debug...)": "cheap:Int",
+			"pos.countMoves()#1": "own:Int", "pos.countMoves()#2": "enemy:Int"},
+		Skip: []string{"evaluatedNodes++", "gamePhaseFactor :=", "verifLazyCut(", "pos.flags =", "if len(debug) > 0"}},
+	{Func: "Position.MakeMove", Lean: "MakeMove_corners", StartAt: "if mov.from.getFile() == A &&", StopBefore: "if pos.board[mov.to] != NullPiece",
+		Result: "flags", State: map[string]string{"pos.flags": "flags:Int"}, Opaque: map[string]string{"mov.from": "from_:Int", "mov.to": "to_:Int"}},
+	{Func: "terminalNodeScore", Lean: "terminalNodeScore_decision", Drop: []string{"position"},
+		Opaque: map[string]string{"position.isCurrentKingUnderCheck()": "inCheck:Bool"}, Skip: []string{"evaluatedNodes++"}},
 	{Func: "appendCapture", Lean: "appendCapture_ranking", ExprVar: "captureRanking"},
 	{Func: "appendMoveOrCapture", Lean: "appendMoveOrCapture_ranking", ExprVar: "captureRanking"},
 	{Func: "appendSlidingPieceMoveOrCapture", Lean: "appendSlidingPieceMoveOrCapture_ranking", ExprVar: "captureRanking"},
@@ -81,6 +99,8 @@ type tr struct {
 	isPart  bool
 	extra   []string // extra params from Opaque, "name : Type"
 	extraOK map[string]bool
+	nodeOpq map[ast.Node]string // expression node -> "name:Type"
+	stateIdent map[*ast.Ident]ast.Expr
 }
 
 func (t *tr) text(n ast.Node) string {
@@ -146,7 +166,10 @@ func leanInt(s string) string {
 
 // expression -> Lean term (parenthesised where needed). In a partial function the term may contain (← ...).
 func (t *tr) expr(e ast.Expr) string {
-	if name, ok := t.cur.Opaque[t.text(e)]; ok {
+	if name, ok := t.cur.State[t.text(e)]; ok {
+		return strings.SplitN(name, ":", 2)[0]
+	}
+	if name, ok := t.nodeOpq[e]; ok {
 		nm := strings.SplitN(name, ":", 2)
 		if !t.extraOK[nm[0]] {
 			t.extraOK[nm[0]] = true
@@ -188,6 +211,12 @@ func (t *tr) expr(e ast.Expr) string {
 			return "(!" + a + ")"
 		case token.ADD:
 			return a
+		case token.XOR:
+			bits, signed, ok := bitsOf(t.info.TypeOf(e))
+			if !ok || signed {
+				bad("bitwise complement on signed or non-integer type")
+			}
+			return fmt.Sprintf("(%s - %s)", new(big.Int).Sub(new(big.Int).Lsh(big.NewInt(1), uint(bits)), big.NewInt(1)).String(), a)
 		}
 		bad("unary %s", x.Op)
 	case *ast.BinaryExpr:
@@ -218,6 +247,12 @@ func (t *tr) expr(e ast.Expr) string {
 				return "(Int.tmod " + a + " " + b + ")"
 			}
 			return "(← goMod " + a + " " + b + ")"
+		case token.AND_NOT:
+			bits, signed, ok := bitsOf(ty)
+			if !ok || signed {
+				bad("bit operation on signed or non-integer type %s", ty)
+			}
+			return fmt.Sprintf("(band %s (%s - %s))", a, new(big.Int).Sub(new(big.Int).Lsh(big.NewInt(1), uint(bits)), big.NewInt(1)).String(), b)
 		case token.AND, token.OR, token.XOR:
 			_, signed, ok := bitsOf(ty)
 			if !ok || signed {
@@ -304,6 +339,13 @@ func (t *tr) nonzeroConst(e ast.Expr) bool {
 	return ok && tv.Value != nil && tv.Value.Kind() == constant.Int && constant.Sign(tv.Value) != 0
 }
 
+func (t *tr) typeOfLhs(id *ast.Ident) types.Type {
+	if orig, ok := t.stateIdent[id]; ok {
+		return t.info.TypeOf(orig)
+	}
+	return t.info.TypeOf(id)
+}
+
 func (t *tr) needScalar(e ast.Expr) { leanType(t.info.TypeOf(e)) }
 
 func (t *tr) call(key string, args []string) string {
@@ -325,6 +367,16 @@ func (t *tr) call(key string, args []string) string {
 func (t *tr) mayPanic(n ast.Node) bool {
 	p := false
 	ast.Inspect(n, func(m ast.Node) bool {
+		if _, ok := t.nodeOpq[m]; ok {
+			return false
+		}
+		if st, ok := m.(ast.Stmt); ok && t.cur != nil {
+			for _, pre := range t.cur.Skip {
+				if strings.HasPrefix(t.text(st), pre) {
+					return false
+				}
+			}
+		}
 		switch x := m.(type) {
 		case *ast.BinaryExpr:
 			if x.Op == token.QUO || x.Op == token.REM {
@@ -401,6 +453,11 @@ func (t *tr) seq(ss []ast.Stmt, d int, declared map[string]bool) string {
 		}
 		return t.ret(mangle(t.cur.Result))
 	}
+	for _, pre := range t.cur.Skip {
+		if strings.HasPrefix(t.text(s), pre) {
+			return t.seq(rest, d, declared)
+		}
+	}
 	let := func(name, val string) string {
 		return "let " + mangle(name) + " := " + val + "\n" + ind(d) + t.seq(rest, d, declared)
 	}
@@ -448,9 +505,16 @@ func (t *tr) seq(ss []ast.Stmt, d int, declared map[string]bool) string {
 		}
 		id, ok := x.Lhs[0].(*ast.Ident)
 		if !ok {
-			bad("assignment to %s", t.text(x.Lhs[0]))
+			sv, isState := t.cur.State[t.text(x.Lhs[0])]
+			if !isState {
+				bad("assignment to %s", t.text(x.Lhs[0]))
+			}
+			// a state lvalue: behaves like the local variable it is mapped to
+			id = &ast.Ident{Name: strings.SplitN(sv, ":", 2)[0]}
+			t.info.Types[id] = types.TypeAndValue{Type: t.info.TypeOf(x.Lhs[0])}
+			t.stateIdent[id] = x.Lhs[0]
 		}
-		leanType(t.info.TypeOf(id))
+		leanType(t.typeOfLhs(id))
 		switch x.Tok {
 		case token.DEFINE:
 			if declared[id.Name] {
@@ -464,13 +528,18 @@ func (t *tr) seq(ss []ast.Stmt, d int, declared map[string]bool) string {
 			}
 			return let(id.Name, t.expr(x.Rhs[0]))
 		default:
-			ops := map[token.Token]token.Token{token.ADD_ASSIGN: token.ADD, token.SUB_ASSIGN: token.SUB, token.MUL_ASSIGN: token.MUL, token.QUO_ASSIGN: token.QUO}
+			ops := map[token.Token]token.Token{token.ADD_ASSIGN: token.ADD, token.SUB_ASSIGN: token.SUB, token.MUL_ASSIGN: token.MUL, token.QUO_ASSIGN: token.QUO,
+				token.AND_ASSIGN: token.AND, token.OR_ASSIGN: token.OR, token.XOR_ASSIGN: token.XOR, token.AND_NOT_ASSIGN: token.AND_NOT}
 			op, ok := ops[x.Tok]
 			if !ok || !declared[id.Name] {
 				bad("assignment operator %s", x.Tok)
 			}
-			be := &ast.BinaryExpr{X: id, Op: op, Y: x.Rhs[0]}
-			t.info.Types[be] = types.TypeAndValue{Type: t.info.TypeOf(id)}
+			var lhs ast.Expr = id
+			if orig, ok := t.stateIdent[id]; ok {
+				lhs = orig
+			}
+			be := &ast.BinaryExpr{X: lhs, Op: op, Y: x.Rhs[0]}
+			t.info.Types[be] = types.TypeAndValue{Type: t.typeOfLhs(id)}
 			return let(id.Name, t.expr(be))
 		}
 	case *ast.IncDecStmt:
@@ -581,6 +650,34 @@ func (t *tr) translate(it *item) (def string, err string) {
 		t.cur.Opaque = map[string]string{}
 	}
 	t.extra, t.extraOK = nil, map[string]bool{}
+	t.nodeOpq = map[ast.Node]string{}
+	t.stateIdent = map[*ast.Ident]ast.Expr{}
+	if t.cur.State == nil {
+		t.cur.State = map[string]string{}
+	}
+	{
+		count := map[string]int{}
+		ast.Inspect(fd.Body, func(n ast.Node) bool {
+			e, ok := n.(ast.Expr)
+			if !ok {
+				return true
+			}
+			txt := t.text(e)
+			if _, isParen := e.(*ast.ParenExpr); isParen {
+				return true
+			}
+			count[txt]++
+			if name, ok := it.Opaque[txt]; ok {
+				t.nodeOpq[e] = name
+				return false
+			}
+			if name, ok := it.Opaque[fmt.Sprintf("%s#%d", txt, count[txt])]; ok {
+				t.nodeOpq[e] = name
+				return false
+			}
+			return true
+		})
+	}
 	ln := it.Lean
 	var params []string
 	declared := map[string]bool{}
@@ -623,7 +720,7 @@ func (t *tr) translate(it *item) (def string, err string) {
 			body = e
 		}
 	} else {
-		if fd.Recv != nil {
+		if fd.Recv != nil && it.StartAt == "" {
 			for _, f := range fd.Recv.List {
 				for _, n := range f.Names {
 					params = append(params, fmt.Sprintf("(%s : %s)", mangle(n.Name), leanType(t.info.TypeOf(n))))
@@ -633,7 +730,7 @@ func (t *tr) translate(it *item) (def string, err string) {
 		}
 		for _, f := range fd.Type.Params.List {
 			for _, n := range f.Names {
-				if drop[n.Name] {
+				if drop[n.Name] || it.StartAt != "" {
 					continue
 				}
 				params = append(params, fmt.Sprintf("(%s : %s)", mangle(n.Name), leanType(t.info.TypeOf(n))))
@@ -651,19 +748,79 @@ func (t *tr) translate(it *item) (def string, err string) {
 				}
 				return true
 			})
-			if rty == nil {
-				return "", "result variable not found"
+			for _, sv := range it.State {
+				nm := strings.SplitN(sv, ":", 2)
+				if nm[0] == it.Result {
+					resType = nm[1]
+				}
 			}
-			resType = leanType(rty)
+			if resType == "" {
+				if rty == nil {
+					return "", "result variable not found"
+				}
+				resType = leanType(rty)
+			}
 		} else {
 			if fd.Type.Results == nil || len(fd.Type.Results.List) != 1 || len(fd.Type.Results.List[0].Names) > 1 {
 				return "", "function must have exactly one result"
 			}
 			resType = leanType(t.info.TypeOf(fd.Type.Results.List[0].Type))
 		}
+		bodyList := fd.Body.List
+		if it.StartAt != "" {
+			k := -1
+			for i, s := range bodyList {
+				if strings.HasPrefix(t.text(s), it.StartAt) {
+					k = i
+					break
+				}
+			}
+			if k < 0 {
+				return "", "start statement not found"
+			}
+			bodyList = bodyList[k:]
+			// the function's own parameters are not parameters of the slice unless used in it
+			params = nil
+			declared = map[string]bool{}
+			names := make([]string, 0, len(it.State))
+			for _, sv := range it.State {
+				names = append(names, sv)
+			}
+			sort.Strings(names)
+			for _, sv := range names {
+				nm := strings.SplitN(sv, ":", 2)
+				params = append(params, fmt.Sprintf("(%s : %s)", nm[0], nm[1]))
+				declared[nm[0]] = true
+			}
+			start := bodyList[0].Pos()
+			seen := map[string]bool{}
+			for _, s := range bodyList {
+				if it.StopBefore != "" && strings.HasPrefix(t.text(s), it.StopBefore) {
+					break
+				}
+				ast.Inspect(s, func(n ast.Node) bool {
+					if e, ok := n.(ast.Expr); ok {
+						if _, ok := t.nodeOpq[e]; ok {
+							return false
+						}
+						if _, ok := it.State[t.text(e)]; ok {
+							return false
+						}
+					}
+					if id, ok := n.(*ast.Ident); ok {
+						if v, ok := t.info.Uses[id].(*types.Var); ok && !v.IsField() && v.Parent() != v.Pkg().Scope() && v.Pos() < start && !seen[id.Name] {
+							seen[id.Name] = true
+							params = append(params, fmt.Sprintf("(%s : %s)", mangle(id.Name), leanType(v.Type())))
+							declared[id.Name] = true
+						}
+					}
+					return true
+				})
+			}
+		}
 		// classification: partial iff the translated part can panic
 		part := false
-		for _, s := range fd.Body.List {
+		for _, s := range bodyList {
 			if it.StopBefore != "" && strings.HasPrefix(t.text(s), it.StopBefore) {
 				break
 			}
@@ -672,7 +829,7 @@ func (t *tr) translate(it *item) (def string, err string) {
 			}
 		}
 		t.isPart = part
-		body = t.stmts(fd.Body.List, 1, declared)
+		body = t.stmts(bodyList, 1, declared)
 	}
 	for _, d := range it.Drop {
 		_ = d
@@ -684,7 +841,7 @@ func (t *tr) translate(it *item) (def string, err string) {
 	}
 	t.partial[ln] = t.isPart
 	pos := t.fset.Position(fd.Pos())
-	def = fmt.Sprintf("/-- Go: `%s` (%s:%d)%s -/\ndef %s %s : %s :=\n  %s\n", it.Func, filepath.Base(pos.Filename), pos.Line,
+	def = fmt.Sprintf("/-- Go: `%s` (%s)%s -/\ndef %s %s : %s :=\n  %s\n", it.Func, filepath.Base(pos.Filename),
 		map[bool]string{true: " - slice/expression, see go2lean whitelist", false: ""}[it.StopBefore != "" || it.ExprVar != ""],
 		ln, strings.Join(params, " "), rt, body)
 	return def, ""
